@@ -94,6 +94,9 @@ pub fn icfc_release_post(old: Icfc, a: i128, new: Icfc) -> bool {
     icfc_release_consumed_adds(old, a, new) && icfc_release_advertised_rule(old, a, new)
 }
 
+// on_transmit(): `wrote` = a MAX_DATA frame was put on the wire, `wire` = the value it carries
+pub fn icfc_transmit_wire_is_advertised(s: Icfc, wrote: bool, wire: i128) -> bool { !wrote || wire == s.advertised }
+
 // ---- ReceiveStreamFlowController: abstraction ------------------------------------------------------------
 // advertised: read_window_sync.latest_value (largest MAX_STREAM_DATA); acquired: highest offset charged to the
 // connection; released: bytes read by the application (or discarded on reset); window: desired window
@@ -149,6 +152,9 @@ pub fn rsfc_release_post(old: Rsfc, a: i128, new: Rsfc, c_old: Icfc, c_new: Icfc
 // release_outstanding_window() == release_window(acquired - released)
 pub fn rsfc_outstanding(old: Rsfc) -> i128 { old.acquired - old.released }
 
+// read_window_sync.on_transmit(): `wrote` = a MAX_STREAM_DATA frame was put on the wire carrying `wire`
+pub fn rsfc_transmit_wire_is_advertised(s: Rsfc, wrote: bool, wire: i128) -> bool { !wrote || wire == s.advertised }
+
 // ---- RemoteInitiated stream-count controller: abstraction -------------------------------------------------
 // advertised: max_streams_sync.latest_value (largest MAX_STREAMS we are willing to send, cumulative);
 // opened / closed: peer-initiated streams opened / closed so far; local_limit: max_local_limit (concurrency)
@@ -183,6 +189,9 @@ pub fn ri_timeout_post(old: Ri, new: Ri) -> bool {
 // with a full token bucket the whole backlog of closed streams is handed back at once
 pub fn ri_timeout_full_bucket(old: Ri, new: Ri) -> bool { new.advertised == imin(max_streams_max(), old.closed + old.local_limit) }
 
+// on_transmit(): timeout step, then `wrote` = a MAX_STREAMS frame was put on the wire carrying `wire`
+pub fn ri_transmit_wire_is_advertised(new: Ri, wrote: bool, wire: i128) -> bool { !wrote || wire == new.advertised }
+
 // ---- buffer::reassembler::Cursors: abstraction (fin == -1: final size unknown) ----------------------------
 #[derive(Clone, Copy)]
 pub struct Cur { pub start: i128, pub max_recv: i128, pub fin: i128 }
@@ -192,27 +201,29 @@ pub fn cur_inv(c: Cur) -> bool {
         && (c.fin == -1 || c.max_recv <= c.fin)
 }
 pub fn cur_same(a: Cur, b: Cur) -> bool { a.start == b.start && a.max_recv == b.max_recv && a.fin == b.fin }
-// RFC 9000 4.5, the data [.., end) arrives, with or without the FIN bit:
-//  (1) FIN, final size known:   the final size must not change
-//  (2) FIN, final size unknown: no data may have been received beyond the new final size
-//  (3) no FIN, final size known: data must not extend beyond the final size
-//  (4) no FIN, unknown:          no constraint
-pub fn cur_fin_contradiction(c: Cur, end: i128, has_fin: bool) -> bool {
-    if has_fin {
-        if c.fin >= 0 { end != c.fin } else { c.max_recv > end }
+// RFC 9000 4.5.  A reader delivers the data [.., end); rfin is the final size it announces (-1: none; a
+// well-formed reader has end <= rfin):
+//  (1) final size announced, final size known:   "Once a final size for a stream is known, it cannot change"
+//  (2) final size announced, unknown so far:     no data may have been received beyond the new final size
+//  (3) none announced, final size known:         data must not extend beyond the final size
+//  (4) none announced, unknown:                  no constraint
+pub fn cur_reader_wf(end: i128, rfin: i128) -> bool { 0 <= end && -1 <= rfin && (rfin == -1 || end <= rfin) && rfin <= varint_max() }
+pub fn cur_fin_contradiction(c: Cur, end: i128, rfin: i128) -> bool {
+    if rfin >= 0 {
+        if c.fin >= 0 { rfin != c.fin } else { c.max_recv > rfin }
     } else {
         if c.fin >= 0 { end > c.fin } else { false }
     }
 }
-// handle_reader_fin(reader) -> ok; kind: 0 = Ok, 1 = Err(OutOfRange), 2 = Err(InvalidFin)
-pub fn cur_fin_result(c: Cur, end: i128, has_fin: bool, kind: i128) -> bool {
-    if end > varint_max() { kind == 1 } else { if cur_fin_contradiction(c, end, has_fin) { kind == 2 } else { kind == 0 } }
+// handle_reader_fin(reader) -> kind: 0 = Ok, 1 = Err(OutOfRange), 2 = Err(InvalidFin)
+pub fn cur_fin_result(c: Cur, end: i128, rfin: i128, kind: i128) -> bool {
+    if end > varint_max() { kind == 1 } else { if cur_fin_contradiction(c, end, rfin) { kind == 2 } else { kind == 0 } }
 }
-pub fn cur_fin_ok_post(old: Cur, end: i128, has_fin: bool, new: Cur, kind: i128) -> bool {
+pub fn cur_fin_ok_post(old: Cur, end: i128, rfin: i128, new: Cur, kind: i128) -> bool {
     kind != 0 || (new.start == old.start && new.max_recv == imax(old.max_recv, end)
-        && new.fin == (if old.fin >= 0 { old.fin } else { if has_fin { end } else { -1 } }))
+        && new.fin == (if old.fin >= 0 { old.fin } else { rfin }))
 }
 pub fn cur_fin_err_unchanged(old: Cur, new: Cur, kind: i128) -> bool { kind == 0 || cur_same(old, new) }
-pub fn cur_fin_post(old: Cur, end: i128, has_fin: bool, new: Cur, kind: i128) -> bool {
-    cur_fin_result(old, end, has_fin, kind) && cur_fin_ok_post(old, end, has_fin, new, kind) && cur_fin_err_unchanged(old, new, kind)
+pub fn cur_fin_post(old: Cur, end: i128, rfin: i128, new: Cur, kind: i128) -> bool {
+    cur_fin_result(old, end, rfin, kind) && cur_fin_ok_post(old, end, rfin, new, kind) && cur_fin_err_unchanged(old, new, kind)
 }
